@@ -76,6 +76,9 @@ def run(ctx, R, tier):
             other = n.comparators[0] if unparse(n.left) == "pyro_app.gateway_key" else n.left
             if isinstance(other, ast.Name):
                 keyvar = other.id
+            elif _utf8_encoded_name(other) is not None:
+                # `presented.encode("utf-8") == configured`: the encoding written into the comparison itself
+                keyvar = _utf8_encoded_name(other)
     eq_found = keyvar is not None
     if keyvar is None:
         # some other test against the configured key (membership, startswith ...): find the presented key's variable so that the remaining rules can still speak about it
@@ -88,12 +91,46 @@ def run(ctx, R, tier):
             "process_pyro_request no longer tests `presented == pyro_app.gateway_key`: any other relation (membership in the configured value is a substring test when that "
             "value is bytes/str, a prefix test, ...) lets requests through that do not present the configured key")
 
+    # the key check itself cannot fail: the presented value comes out of the parsed query string, where a parameter given more than once is a LIST - a string method
+    # called on it before it is known to be a str raises AttributeError out of the WSGI application (the web server's crash page) instead of the 403
+    def _is_str_test(e, want):
+        if isinstance(e, ast.UnaryOp) and isinstance(e.op, ast.Not):
+            return _is_str_test(e.operand, not want)
+        return want and isinstance(e, ast.Call) and isinstance(e.func, ast.Name) and e.func.id == "isinstance" and len(e.args) == 2 and \
+            isinstance(e.args[0], ast.Name) and e.args[0].id == keyvar and unparse(e.args[1]) == "str"
+
+    def known_text(atom, pol):
+        return _is_str_test(atom, True) if pol is True else _is_str_test(atom, False) if pol is False else False
+    unchecked = None
+    if keyvar is not None:
+        for c in walk_no_nested(f.node):
+            if not (isinstance(c, ast.Call) and isinstance(c.func, ast.Attribute) and isinstance(c.func.value, ast.Name) and c.func.value.id == keyvar):
+                continue
+            short_circuit = False
+            cur_, child_ = getattr(c, "_parent", None), c
+            while cur_ is not None and not isinstance(cur_, ast.stmt):
+                if isinstance(cur_, ast.BoolOp) and child_ in cur_.values:
+                    before = cur_.values[:cur_.values.index(child_)]
+                    if isinstance(cur_.op, ast.Or) and any(_is_str_test(b, False) for b in before):
+                        short_circuit = True
+                    if isinstance(cur_.op, ast.And) and any(_is_str_test(b, True) for b in before):
+                        short_circuit = True
+                cur_, child_ = getattr(cur_, "_parent", None), cur_
+            if short_circuit or all(cfg.guarded(n, lambda e: edge_has_fact(e, known_text)) for n in ctx.node_of(f, c)):
+                continue
+            unchecked = unchecked or c
+    R.check(keyvar is not None and unchecked is None, "C20-R1", "key|check-cannot-fail-on-a-repeated-parameter", "string methods are called on the presented key only once it is known to be a str", f.loc(unchecked) if unchecked is not None else f.loc(),
+            "`%s` is evaluated on whatever the query string gave: `?$key=a&$key=b` makes it a list, AttributeError escapes the gateway - the request is answered by the web server's "
+            "crash page, not refused with 403" % (unparse(unchecked, 60) if unchecked is not None else ""))
+
     def no_key_configured(atom, pol):
         return pol is False and unparse(atom) == "pyro_app.gateway_key"
 
     def key_matches(atom, pol):
-        if isinstance(atom, ast.Compare) and len(atom.ops) == 1 and {unparse(atom.left), unparse(atom.comparators[0])} == {keyvar, "pyro_app.gateway_key"}:
-            return (isinstance(atom.ops[0], ast.NotEq) and pol is False) or (isinstance(atom.ops[0], ast.Eq) and pol is True)
+        if isinstance(atom, ast.Compare) and len(atom.ops) == 1:
+            sides = [atom.left, atom.comparators[0]]
+            if any(unparse(x) == "pyro_app.gateway_key" for x in sides) and any((isinstance(x, ast.Name) and x.id == keyvar) or _utf8_encoded_name(x) == keyvar for x in sides if keyvar):
+                return (isinstance(atom.ops[0], ast.NotEq) and pol is False) or (isinstance(atom.ops[0], ast.Eq) and pol is True)
         return False
 
     def no_pattern(atom, pol):
@@ -132,6 +169,11 @@ def run(ctx, R, tier):
     def key_mismatch(atom, pol):
         return key_matches(atom, not pol) if isinstance(atom, ast.Compare) else False
 
+    def key_not_text(atom, pol):
+        # a presented key that is not one string ($key given twice arrives as a list) cannot be the configured key either
+        return pol is False and isinstance(atom, ast.Call) and isinstance(atom.func, ast.Name) and atom.func.id == "isinstance" and len(atom.args) == 2 and \
+            isinstance(atom.args[0], ast.Name) and atom.args[0].id == keyvar and unparse(atom.args[1]) == "str"
+
     def pat_mismatch(atom, pol):
         return pol is False and isinstance(atom, ast.Call) and dotted(atom.func) in ("re.match", "re.search", "re.fullmatch")
     kinds = set()
@@ -141,7 +183,7 @@ def run(ctx, R, tier):
             lst = getattr(st._parent, "body", []) if st in getattr(st._parent, "body", []) else getattr(st._parent, "orelse", [])
             returns = bool(lst) and isinstance(lst[-1], ast.Return)
             for n in ctx.node_of(f, c):
-                if cfg.guarded(n, lambda e: edge_has_fact(e, key_mismatch)):
+                if cfg.guarded(n, lambda e: edge_has_fact(e, key_mismatch) or edge_implies_any(e, [key_mismatch, key_not_text])):
                     kinds.add("key")
                     R.check(returns, "C20-R1", "refusal:key", "a wrong key is answered with 403 and the request ends there", f.loc(c), "the 403 branch does not return")
                 elif cfg.guarded(n, lambda e: edge_has_fact(e, pat_mismatch)):
@@ -403,8 +445,12 @@ def run(ctx, R, tier):
     kdefs = [st for st, t, k in stores_in(f.node) if k == "assign" and isinstance(t, ast.Name) and t.id == keyvar]
     enc = [st for st in kdefs if isinstance(st.value, ast.Call) and isinstance(st.value.func, ast.Attribute) and st.value.func.attr == "encode" and
            st.value.args and isinstance(st.value.args[0], ast.Constant) and st.value.args[0].value.lower().replace("-", "") == "utf8" and unparse(st.value.func.value) == keyvar]
-    cmp_nodes = [n for n in cfg.nodes if n.kind == "test" and any(key_matches(a, pl) or key_matches(a, not pl) for a, pl in facts_of(n.ast.test, True))]
+    cmp_nodes = [n for n in cfg.nodes if n.kind == "test" and any(key_matches(a, pl) or key_matches(a, not pl) for pol_ in (True, False) for a, pl in facts_of(n.ast.test, pol_))]
     ok = len(enc) == 1 and bool(cmp_nodes) and all(any(cfg.dominates(e, c) for e in cfg.nodes_for(enc[0])) for c in cmp_nodes)
+    if not enc and cmp_nodes:
+        # the encoding is part of the comparison: every comparison with the configured key has `<presented>.encode("utf-8")` on its other side
+        cmps = [n for n in walk_no_nested(f.node) if isinstance(n, ast.Compare) and len(n.ops) == 1 and "pyro_app.gateway_key" in (unparse(n.left), unparse(n.comparators[0]))]
+        ok = bool(cmps) and all(_utf8_encoded_name(c.comparators[0] if unparse(c.left) == "pyro_app.gateway_key" else c.left) == keyvar for c in cmps)
     R.check(ok, "C20-R4", "key|utf8-bytes", "the presented key is UTF-8 encoded before it is compared with the configured bytes", f.loc(),
             "the presented key is not compared as UTF-8 bytes")
     src = [st for st in kdefs if st not in enc]
@@ -474,3 +520,11 @@ def run(ctx, R, tier):
     R.check(okb, "C20-R3", "reply-body|bytes", "the reply payload is handed to the WSGI server as bytes(...)", f.loc(bodies[0]) if bodies else f.loc(),
             "the received payload object is returned as is: for a reply that carries annotations it is a memoryview, which WSGI servers refuse (500 instead of the call's result)")
 
+
+def _utf8_encoded_name(e):
+    """`<name>.encode("utf-8")` -> name, else None"""
+    if isinstance(e, ast.Call) and isinstance(e.func, ast.Attribute) and e.func.attr == "encode" and isinstance(e.func.value, ast.Name):
+        a = e.args[0] if e.args else next((k.value for k in e.keywords if k.arg == "encoding"), None)
+        if a is None or (isinstance(a, ast.Constant) and isinstance(a.value, str) and a.value.lower().replace("-", "").replace("_", "") == "utf8"):
+            return e.func.value.id
+    return None
